@@ -106,9 +106,34 @@ type c11W struct {
 	b   strings.Builder
 	ws  float64 // probability of whitespace at a token boundary
 	esc float64 // probability of writing a character as a \u escape
+
+	// long runs of insignificant whitespace (20-300 bytes)
+	lead  int     // before the first token
+	open  int     // between the opening bracket of the root array and its first element
+	longp float64 // probability of a long run at any other token boundary
+	root  *c11N
+}
+
+func (w *c11W) run(n int) {
+	for i := 0; i < n; i++ {
+		w.b.WriteByte(" \t\n\r"[w.r.IntN(4)])
+	}
+}
+
+var c11RunLens = []int{20, 22, 23, 24, 25, 26, 28, 30, 31, 32, 33, 40, 64, 100, 200, 300}
+
+func c11RunLen(r *rand.Rand) int {
+	if r.IntN(3) == 0 {
+		return 20 + r.IntN(281)
+	}
+	return vk.Pick(r, c11RunLens)
 }
 
 func (w *c11W) sp() {
+	if w.longp > 0 && w.r.Float64() < w.longp {
+		w.run(c11RunLen(w.r))
+		return
+	}
 	if w.ws > 0 && w.r.Float64() < w.ws {
 		n := 1 + w.r.IntN(3)
 		for i := 0; i < n; i++ {
@@ -181,6 +206,9 @@ func (w *c11W) node(n *c11N) {
 		w.b.WriteString(n.s)
 	case 'a':
 		w.b.WriteByte('[')
+		if n == w.root && w.open > 0 {
+			w.run(w.open)
+		}
 		w.sp()
 		for i, k := range n.kids {
 			if i > 0 {
@@ -214,11 +242,31 @@ func (w *c11W) node(n *c11N) {
 
 // c11Text renders the tree; whitespace may also precede the first and follow the last token.
 func c11Text(r *rand.Rand, root *c11N, ws, esc float64) string {
-	w := &c11W{r: r, ws: ws, esc: esc}
+	t, _ := c11TextPlan(r, root, ws, esc)
+	return t
+}
+
+// c11TextPlan is c11Text and also tells which long-whitespace plan the text got: a
+// quarter of the texts carry a run of 20-300 bytes of space/tab/LF/CR before the first
+// token, between the root's '[' and the label, at both places, or at other boundaries.
+func c11TextPlan(r *rand.Rand, root *c11N, ws, esc float64) (string, string) {
+	w := &c11W{r: r, ws: ws, esc: esc, root: root}
+	plan := "short"
+	switch r.IntN(16) {
+	case 0:
+		w.lead, plan = c11RunLen(r), "long-leading"
+	case 1:
+		w.open, plan = c11RunLen(r), "long-before-label"
+	case 2:
+		w.lead, w.open, plan = c11RunLen(r), c11RunLen(r), "long-leading+before-label"
+	case 3:
+		w.longp, plan = 0.04, "long-elsewhere"
+	}
+	w.run(w.lead)
 	w.sp()
 	w.node(root)
 	w.sp()
-	return w.b.String()
+	return w.b.String(), plan
 }
 
 // c11Style draws the whitespace / escape probabilities of one text.
